@@ -84,10 +84,10 @@ theorem declTrie_spec (defs : Map Nat ClassDef) {decl : Map Nat Nat} (hd : Sorte
       rw [this]
 
 /-- `removeDeclared` on a duplicate-free list of class hashes that are all known. -/
-theorem removeDeclared_spec (n : Nat) {L : List Nat} (hnd : L.Nodup) {s : State}
+theorem removeDeclared_spec (n : Nat) (orig : Map Nat ClassRec) {L : List Nat} (hnd : L.Nodup) {s : State}
     (hsc : Sorted s.classes) (hst : Sorted s.classTrie)
     (hknown : ∀ c ∈ L, (Map.get s.classes c).isSome = true) :
-    ∃ s', removeDeclared n s L = .ok s' ∧
+    ∃ s', removeDeclared false n orig s L = .ok s' ∧
       s'.contracts = s.contracts ∧ s'.storage = s.storage ∧ s'.hStorage = s.hStorage ∧ s'.hNonce = s.hNonce ∧
       s'.hClass = s.hClass ∧ Sorted s'.classes ∧ Sorted s'.classTrie ∧
       (∀ c, Map.get s'.classes c =
@@ -122,7 +122,7 @@ theorem removeDeclared_spec (n : Nat) {L : List Nat} (hnd : L.Nodup) {s : State}
           exact hknown c (List.mem_cons_of_mem _ hc)
         obtain ⟨s', hok, e1, e2, e3, e4, e5, e6, e7, hgc, hgt⟩ := ih hnd' hs1c hs1t hk1
         refine ⟨s', ?_, e1, e2, e3, e4, e5, e6, e7, ?_, ?_⟩
-        · simp only [removeDeclared, hg, hat, if_true]
+        · simp only [removeDeclared, Bool.false_eq_true, if_false, hg, hat, if_true]
           exact hok
         · intro c
           rw [hgc c]
@@ -153,7 +153,7 @@ theorem removeDeclared_spec (n : Nat) {L : List Nat} (hnd : L.Nodup) {s : State}
       · obtain ⟨s', hok, e1, e2, e3, e4, e5, e6, e7, hgc, hgt⟩ :=
           ih hnd' hsc hst (fun c hc => hknown c (List.mem_cons_of_mem _ hc))
         refine ⟨s', ?_, e1, e2, e3, e4, e5, e6, e7, ?_, ?_⟩
-        · simp only [removeDeclared, hg, hat, if_false]
+        · simp only [removeDeclared, Bool.false_eq_true, if_false, hg, hat]
           exact hok
         · intro c
           rw [hgc c]
@@ -164,6 +164,77 @@ theorem removeDeclared_spec (n : Nat) {L : List Nat} (hnd : L.Nodup) {s : State}
           rw [hgt c]
           by_cases hc : c = c0
           · subst hc; simp [hc0, hg, hat]
+          · simp [hc]
+
+/-- `removeDeclared` in the tolerant mode (lookups in the bucket as it was before the revert): no
+duplicate-freeness needed. -/
+theorem removeDeclared_spec_tol (n : Nat) (orig : Map Nat ClassRec) (L : List Nat) {s : State}
+    (hsc : Sorted s.classes) (hst : Sorted s.classTrie)
+    (hknown : ∀ c ∈ L, (Map.get orig c).isSome = true) :
+    ∃ s', removeDeclared true n orig s L = .ok s' ∧
+      s'.contracts = s.contracts ∧ s'.storage = s.storage ∧ s'.hStorage = s.hStorage ∧ s'.hNonce = s.hNonce ∧
+      s'.hClass = s.hClass ∧ Sorted s'.classes ∧ Sorted s'.classTrie ∧
+      (∀ c, Map.get s'.classes c =
+        if c ∈ L ∧ ((Map.get orig c).map (·.declaredAt)) = some n then none else Map.get s.classes c) ∧
+      (∀ c, Map.get s'.classTrie c =
+        if c ∈ L ∧ ((Map.get orig c).map (fun r => (r.declaredAt, r.defn.sierra))) = some (n, true) then none
+        else Map.get s.classTrie c) := by
+  induction L generalizing s with
+  | nil => exact ⟨s, rfl, rfl, rfl, rfl, rfl, rfl, hsc, hst, fun c => by simp, fun c => by simp⟩
+  | cons c0 L ih =>
+    have hk0 := hknown c0 (List.mem_cons_self ..)
+    have hk' : ∀ c ∈ L, (Map.get orig c).isSome = true := fun c hc => hknown c (List.mem_cons_of_mem _ hc)
+    cases hg : Map.get orig c0 with
+    | none => rw [hg] at hk0; cases hk0
+    | some r =>
+      by_cases hat : r.declaredAt = n
+      · have hs1c : Sorted (Map.del s.classes c0) := sorted_del hsc c0
+        have hs1t : Sorted (if r.defn.sierra then Map.del s.classTrie c0 else s.classTrie) := by
+          split
+          · exact sorted_del hst c0
+          · exact hst
+        obtain ⟨s', hok, e1, e2, e3, e4, e5, e6, e7, hgc, hgt⟩ :=
+          ih (s := { s with classes := Map.del s.classes c0,
+                            classTrie := if r.defn.sierra then Map.del s.classTrie c0 else s.classTrie }) hs1c hs1t hk'
+        refine ⟨s', ?_, e1, e2, e3, e4, e5, e6, e7, ?_, ?_⟩
+        · simp only [removeDeclared, if_true, hg, hat]
+          exact hok
+        · intro c
+          rw [hgc c]
+          show (if c ∈ L ∧ ((Map.get orig c).map (·.declaredAt)) = some n then none
+                else Map.get (Map.del s.classes c0) c) = _
+          by_cases hc : c = c0
+          · subst hc
+            simp [hg, hat, get_del_self hsc]
+          · rw [get_del_ne s.classes hc]; simp [hc]
+        · intro c
+          rw [hgt c]
+          show (if c ∈ L ∧ ((Map.get orig c).map (fun r => (r.declaredAt, r.defn.sierra))) = some (n, true) then none
+                else Map.get (if r.defn.sierra then Map.del s.classTrie c0 else s.classTrie) c) = _
+          by_cases hc : c = c0
+          · subst hc
+            simp only [hg, Option.map_some, hat, List.mem_cons, true_or, true_and]
+            cases hsi : r.defn.sierra with
+            | true => simp [get_del_self hst]
+            | false => simp
+          · have : Map.get (if r.defn.sierra then Map.del s.classTrie c0 else s.classTrie) c = Map.get s.classTrie c := by
+              split
+              · exact get_del_ne s.classTrie hc
+              · rfl
+            rw [this]; simp [hc]
+      · obtain ⟨s', hok, e1, e2, e3, e4, e5, e6, e7, hgc, hgt⟩ := ih hsc hst hk'
+        refine ⟨s', ?_, e1, e2, e3, e4, e5, e6, e7, ?_, ?_⟩
+        · simp only [removeDeclared, if_true, hg, hat, if_false]
+          exact hok
+        · intro c
+          rw [hgc c]
+          by_cases hc : c = c0
+          · subst hc; simp [hg, hat]
+          · simp [hc]
+        · intro c
+          rw [hgt c]
+          by_cases hc : c = c0
+          · subst hc; simp [hg, hat]
           · simp [hc]
 
 /-- `unmigrateTrie` when every migrated class has metadata that says "migrated". -/
